@@ -491,3 +491,49 @@ func evalGroup(r *c08Rec, g FGroup) tri {
 	}
 	return triT
 }
+
+// c08ModelSet applies a Set of rec to the model (an absent timestamp leaves the stored one).
+func c08ModelSet(model map[string]*c08Rec, key string, r C08Rec) {
+	nw := c08FromScenario(r)
+	if old := model[key]; old != nil {
+		if nw.c == 0 {
+			nw.c = old.c
+		}
+		if nw.u == 0 {
+			nw.u = old.u
+		}
+		if nw.e == 0 {
+			nw.e = old.e
+		}
+	}
+	model[key] = nw
+}
+
+// c08ModelPatch applies an accepted PatchOp SET path=v to a map body; false = the model cannot follow it.
+func c08ModelPatch(r *c08Rec, path string, v Val) bool {
+	if r.kind != "map" {
+		return false
+	}
+	parts := strings.Split(path, ".")
+	if len(parts) == 1 {
+		r.fields[parts[0]] = v
+		return true
+	}
+	parent, ok := r.fields[parts[0]]
+	if ok && parent.K != "map" {
+		return false
+	}
+	nm := Val{K: "map"}
+	done := false
+	for _, kv := range parent.Map {
+		if kv.K == parts[1] {
+			kv.V, done = v, true
+		}
+		nm.Map = append(nm.Map, kv)
+	}
+	if !done {
+		nm.Map = append(nm.Map, KV{parts[1], v})
+	}
+	r.fields[parts[0]] = nm
+	return true
+}
